@@ -1,5 +1,6 @@
 import BufProofs.Lemmas.RulesLemmas
 import BufProofs.Lemmas.RulesResolveLemmas
+import BufProofs.Lemmas.RulesScopeLemmas
 /-
   C06 — Rule selection and suppression compose set-theoretically.  Property theorems only;
   vocabulary (`denote`, `Unknown`, `Suppressed` and its clauses, `Kept`, `MoreSuppression`,
@@ -808,5 +809,146 @@ example : moduleEff true true dot { serviceSuffix := "API".toList } { commentFla
           ignoreUnstablePackages := false, enumZeroValueSuffix := [], rpcAllowSameRequestResponse := false,
           rpcAllowGoogleProtobufEmptyRequests := false, rpcAllowGoogleProtobufEmptyResponses := false,
           serviceSuffix := [] } := by decide
+
+/-! ## strengthening round 4: import-only files sharing packages with targets; ignore paths that
+    split a cross-file violation -/
+
+/-- The function the driver runs on `check` lines is `runCheck` on the handler view of the
+    image: for lint, the annotations located in import files are dropped first (lint handlers
+    are built on `NewLintFilesRuleHandler` and never see import files); for breaking nothing
+    changes.  Every `runCheck` theorem above therefore applies with `handlerView lint img`. -/
+theorem runCheckH_is_report (allRules : List RuleRow) (lint validated : Bool) (c : CheckConfig)
+    (aci iup exi : Bool) (img : Image) :
+    runCheckH allRules lint validated c aci iup exi img =
+      (resolve allRules lint validated c).bind
+        (fun rc => report (mkConfig lint rc aci iup exi) (handlerView lint img)) ∧
+    handlerView false img = img :=
+  ⟨runCheck_is_report _ _ _ _ _ _ _ _, rfl⟩
+
+/-- … likewise on `ycheck` lines. -/
+theorem runEffH_is_runEff (allRules : List RuleRow) (lint : Bool) (eff : EffConfig) (exi : Bool) (img : Image) :
+    runEffH allRules lint eff exi img = runEff allRules lint eff exi (handlerView lint img) := rfl
+
+/-- When the measured single-rule annotation sets contain nothing located in an import file
+    (what the oracle class `C06-import-reported` checks on every run), the handler view is the
+    image itself and `runCheckH` IS `runCheck`. -/
+theorem runCheckH_eq_runCheck (allRules : List RuleRow) (lint validated : Bool) (c : CheckConfig)
+    (aci iup exi : Bool) (img : Image)
+    (hh : ∀ a ∈ img.annots, ∀ l, a.loc = some l → (fileAt img.files l.file).isImport = false) :
+    runCheckH allRules lint validated c aci iup exi img = runCheck allRules lint validated c aci iup exi img := by
+  unfold runCheckH
+  rw [handlerView_eq_self lint img hh]
+
+/-- "Files that are only imports are never reported", lint, WITHOUT a hypothesis about the
+    handlers: whatever single-rule annotation sets are fed in (even ones that locate annotations
+    in import files), under every configuration nothing `runCheckH … lint := true` reports is
+    located in an import file: every reported annotation is the file annotation of a measured
+    one whose file is not an import.  (With a handler that does emit on an import file the
+    implementation reports it and this model does not: a correspondence failure in addition to
+    the oracle's.) -/
+theorem lint_never_reports_import_files (allRules : List RuleRow) (validated : Bool) (c : CheckConfig)
+    (aci iup exi : Bool) (img : Image) (out : List FileAnnot)
+    (h : runCheckH allRules true validated c aci iup exi img = .ok out) :
+    ∀ fa ∈ out, ∃ a ∈ img.annots, toFileAnnot img a = fa ∧
+      ∀ l, a.loc = some l → (fileAt img.files l.file).isImport = false := by
+  intro fa hfa
+  unfold runCheckH at h
+  rcases (runCheck_ok_iff _ _ _ _ _ _ _ _ _).1 h with ⟨rc, _, hrep⟩
+  rcases (report_spec _ _ _ hrep).2.1 fa hfa with ⟨a, ⟨h1, _, _⟩, h4⟩
+  rcases (mem_handlerView_lint img a).1 h1 with ⟨hm, hn⟩
+  exact ⟨a, hm, by rw [← h4, toFileAnnot_handlerView], (locNotImport_iff img a).1 hn⟩
+
+/-- The lint report does not depend on what the handlers were measured to emit INSIDE import
+    files: two images with the same files whose annotation lists agree outside the import files
+    give the same `runCheckH` result. -/
+theorem lint_report_independent_of_import_located (allRules : List RuleRow) (validated : Bool) (c : CheckConfig)
+    (aci iup exi : Bool) (img img' : Image)
+    (hf : img'.files = img.files) (hg : img'.againstFiles = img.againstFiles)
+    (ha : img'.annots.filter (locNotImport img') = img.annots.filter (locNotImport img)) :
+    runCheckH allRules true validated c aci iup exi img' = runCheckH allRules true validated c aci iup exi img := by
+  have : handlerView true img' = handlerView true img := by
+    unfold handlerView
+    simp only [if_true]
+    cases img; cases img'
+    simp only at hf hg ha
+    subst hf; subst hg
+    simp only [Image.mk.injEq, true_and]
+    exact ha
+  unfold runCheckH
+  rw [this]
+
+/-- One more `ignore` path, exactly (resolved configuration, same image): afterwards precisely
+    those annotations are reported that were kept before AND whose file and against-file the
+    path does not equal-or-contain — `report(with) = { a ∈ report(without) | a's file not
+    covered }` (`Kept cfg img a` is membership in the report without the path: `report_is_union_exact`).  In particular an ignore path that covers only some of the files taking part in
+    a cross-file violation (PACKAGE_SAME_*, DIRECTORY_SAME_PACKAGE, RPC_REQUEST_RESPONSE_UNIQUE …)
+    leaves the annotations in the non-covered files untouched: the rules are not re-run on a
+    smaller file set (seed C06-m6).  User-level forms: `adding_ignore_monotone`,
+    `adding_ignore_scoped`; general form: `suppression_scoped`. -/
+theorem ignore_path_exact (cfg : Config) (p : Str) (img : Image) (out' : List FileAnnot)
+    (h' : report (withIgnorePath cfg p) img = .ok out') (fa : FileAnnot) :
+    fa ∈ out' ↔ ∃ a, Kept cfg img a ∧ ¬ CoversAnnot p img a ∧ toFileAnnot img a = fa := by
+  rw [report_mem_iff _ _ _ h' fa]
+  constructor
+  · rintro ⟨a, hk, hfa⟩
+    rcases (kept_withIgnorePath cfg p img a).1 hk with ⟨h1, h2⟩
+    exact ⟨a, h1, h2, hfa⟩
+  · rintro ⟨a, h1, h2, hfa⟩
+    exact ⟨a, (kept_withIgnorePath cfg p img a).2 ⟨h1, h2⟩, hfa⟩
+
+/-- … hence: an annotation reported before whose file (and against-file) the new path does not
+    cover is still reported, and nothing new is reported. -/
+theorem ignore_path_keeps_non_covered (cfg : Config) (p : Str) (img : Image) (out out' : List FileAnnot)
+    (h : report cfg img = .ok out) (h' : report (withIgnorePath cfg p) img = .ok out') :
+    (∀ a, Kept cfg img a → ¬ CoversAnnot p img a → toFileAnnot img a ∈ out') ∧ (∀ fa ∈ out', fa ∈ out) := by
+  constructor
+  · intro a hk hc
+    exact (ignore_path_exact cfg p img out' h' _).2 ⟨a, hk, hc, rfl⟩
+  · intro fa hfa
+    rcases (ignore_path_exact cfg p img out' h' fa).1 hfa with ⟨a, hk, _, rfl⟩
+    exact (report_mem_iff _ _ _ h _).2 ⟨a, hk, rfl⟩
+
+/-- One more `ignore_only` entry (rule `r`, path `p`), exactly: only annotations of rule `r`
+    in covered files go away. -/
+theorem ignore_only_exact (cfg : Config) (r : Id) (p : Str) (img : Image) (out' : List FileAnnot)
+    (h' : report (withIgnoreOnly cfg r p) img = .ok out') (fa : FileAnnot) :
+    fa ∈ out' ↔ ∃ a, Kept cfg img a ∧ ¬ (a.ruleId = r ∧ CoversAnnot p img a) ∧ toFileAnnot img a = fa := by
+  rw [report_mem_iff _ _ _ h' fa]
+  constructor
+  · rintro ⟨a, hk, hfa⟩
+    rcases (kept_withIgnoreOnly cfg r p img a).1 hk with ⟨h1, h2⟩
+    exact ⟨a, h1, h2, hfa⟩
+  · rintro ⟨a, h1, h2, hfa⟩
+    exact ⟨a, (kept_withIgnoreOnly cfg r p img a).2 ⟨h1, h2⟩, hfa⟩
+
+/-- Witness for the family of seeds C06-m5 / C06-m6: `a/v1/t.proto` (target) and `a/v1/i.proto`
+    share a package; annotation 0 is what a PACKAGE_SAME_GO_PACKAGE handler that wrongly
+    compares imports would emit IN the import file, 1 the same in the target, 2 a per-element
+    annotation in the target. -/
+def exImgShared (iImport : Bool) : Image :=
+  { files := [{ path := "a/v1/t.proto".toList, isImport := false, unstable := false, comments := [] },
+              { path := "a/v1/i.proto".toList, isImport := iImport, unstable := false, comments := [] }],
+    againstFiles := [],
+    annots := [{ ruleId := "PACKAGE_SAME_GO_PACKAGE", loc := some ⟨1, [8, 11], 2, 0, 2, 20⟩, against := none, message := "g" },
+               { ruleId := "PACKAGE_SAME_GO_PACKAGE", loc := some ⟨0, [8, 11], 2, 0, 2, 20⟩, against := none, message := "g" },
+               { ruleId := "MESSAGE_PASCAL_CASE", loc := some ⟨0, [4, 0, 1], 3, 8, 3, 12⟩, against := none, message := "m" }] }
+
+def exCShared : CheckConfig :=
+  { use := ["PACKAGE_SAME_GO_PACKAGE", "MESSAGE_PASCAL_CASE"], except := [], ignore := [], ignoreOnly := [], disableBuiltin := false }
+
+-- the import-located annotation never comes out of the lint model, whatever was measured …
+example : (runCheckH (rulesOf .v2) true true exCShared false false false (exImgShared true)).map (·.map (fun fa => (fa.path.map String.ofList, fa.type))) =
+    .ok [(some "a/v1/t.proto", "PACKAGE_SAME_GO_PACKAGE"), (some "a/v1/t.proto", "MESSAGE_PASCAL_CASE")] := by decide
+-- … it does when the file is a target
+example : (runCheckH (rulesOf .v2) true true exCShared false false false (exImgShared false)).map (·.length) = .ok 3 := by decide
+-- ignoring the sibling file removes exactly the annotation located in it (all-target image)
+example : (runCheckH (rulesOf .v2) true true (addIgnore exCShared "a/v1/i.proto".toList) false false false (exImgShared false)).map
+      (·.map (fun fa => (fa.path.map String.ofList, fa.type))) =
+    .ok [(some "a/v1/t.proto", "PACKAGE_SAME_GO_PACKAGE"), (some "a/v1/t.proto", "MESSAGE_PASCAL_CASE")] := by decide
+example : ¬ CoversAnnot "a/v1/i.proto".toList (exImgShared false) (exImgShared false).annots[1] := by
+  unfold CoversAnnot CoversLoc
+  rintro (⟨x, hx, hc⟩ | ⟨x, hx, _⟩)
+  · cases hx; revert hc; decide
+  · cases hx
 
 end BufProofs.C06
